@@ -1,40 +1,75 @@
 mod api;
 mod h_core;
 mod instances;
+mod prop;
 mod runner;
 mod selftest;
+mod shard;
 mod varc;
 mod world;
 
 use arc_swap_verif_rt as rt;
+use serde_json::json;
+
+fn flag(args: &[String], name: &str) -> Option<String> {
+    args.iter().position(|a| a == name).and_then(|i| args.get(i + 1).cloned())
+}
 
 fn parse_cfg(args: &[String]) -> rt::Config {
     let mut c = rt::Config::default();
-    let mut i = 0;
-    while i < args.len() {
-        let v = |i: usize| args.get(i + 1).cloned().unwrap_or_default();
-        match args[i].as_str() {
-            "--p" => c.p = v(i).parse().unwrap(),
-            "--s" => c.s = v(i).parse().unwrap(),
-            "--f" => c.f = v(i).parse().unwrap(),
-            "--model" => {
-                c.model = match v(i).as_str() {
-                    "m1" => rt::Model::M1,
-                    "m2" => rt::Model::M2,
-                    "sc" => rt::Model::Sc,
-                    x => panic!("unknown model {}", x),
-                }
-            }
-            "--step-cap" => c.step_cap = v(i).parse().unwrap(),
-            _ => {
-                i += 1;
-                continue;
-            }
-        }
-        i += 2;
+    if let Some(v) = flag(args, "--p") {
+        c.p = v.parse().unwrap();
+    }
+    if let Some(v) = flag(args, "--s") {
+        c.s = v.parse().unwrap();
+    }
+    if let Some(v) = flag(args, "--f") {
+        c.f = v.parse().unwrap();
+    }
+    if let Some(v) = flag(args, "--step-cap") {
+        c.step_cap = v.parse().unwrap();
+    }
+    if let Some(v) = flag(args, "--model") {
+        c.model = match v.as_str() {
+            "m1" => rt::Model::M1,
+            "m2" => rt::Model::M2,
+            "sc" => rt::Model::Sc,
+            x => panic!("unknown model {}", x),
+        };
     }
     c
 }
+
+fn parse_cfg_string(s: &str) -> rt::Config {
+    // "p=2,s=1,f=1,model=M1,step_cap=5000"
+    let mut c = rt::Config::default();
+    for kv in s.split(',') {
+        let mut it = kv.splitn(2, '=');
+        let (k, v) = (it.next().unwrap_or(""), it.next().unwrap_or(""));
+        match k {
+            "p" => c.p = v.parse().unwrap(),
+            "s" => c.s = v.parse().unwrap(),
+            "f" => c.f = v.parse().unwrap(),
+            "step_cap" => c.step_cap = v.parse().unwrap(),
+            "model" => {
+                c.model = match v {
+                    "M1" => rt::Model::M1,
+                    "M2" => rt::Model::M2,
+                    _ => rt::Model::Sc,
+                }
+            }
+            _ => {}
+        }
+    }
+    c
+}
+
+const ASSUMPTIONS: &[&str] = &[
+    "memory model M1 (DESIGN §5): promise-free view semantics for relaxed/acquire/release (an under-approximation of C11: no load buffering, modification order = execution order); SeqCst accesses act as full barriers; releases are A-cumulative",
+    "bounds: only executions within the stated numbers of preemptions, stale reads and spurious compare_exchange_weak failures, of the stated small harnesses, are covered",
+    "the engine (arc_swap_verif_rt) is trusted; it is validated by the litmus / interleaving-count / replay self tests (vh selftest)",
+    "the hooks (cfg arc_swap_verif) only redirect atomics, thread-local storage and the slot-count constant; the small build uses 2 fast slots per node instead of 8",
+];
 
 fn main() {
     let args: Vec<String> = std::env::args().collect();
@@ -45,13 +80,31 @@ fn main() {
         }
         Some("list") => {
             for i in instances::all() {
-                println!("{:28} size={} props={:?}  {}", i.name, i.size, i.props, i.alphabet);
+                println!("{:34} size={} props={:?}  {}", i.name, i.size, i.props, i.alphabet);
             }
+        }
+        Some("worker") => {
+            let name = args.get(2).cloned().unwrap_or_default();
+            let cfg = parse_cfg(&args[3..]);
+            let deciding = flag(&args, "--deciding");
+            let known = flag(&args, "--known").map(|f| prop::load_known(&f)).unwrap_or_default();
+            let all = instances::all();
+            let inst = match all.iter().find(|i| i.name == name) {
+                Some(i) => i,
+                None => {
+                    eprintln!("MACHINERY-ERROR unknown instance {}", name);
+                    std::process::exit(2);
+                }
+            };
+            shard::worker_main(inst, &cfg, deciding.as_deref(), &known);
         }
         Some("trace") => {
             // vh trace <instance> <choices comma separated> [cfg]
             let name = args.get(2).cloned().unwrap_or_default();
-            let choices: Vec<u16> = args.get(3).map(|s| s.split(',').filter(|x| !x.is_empty()).map(|x| x.parse().unwrap()).collect()).unwrap_or_default();
+            let choices: Vec<u16> = args
+                .get(3)
+                .map(|s| s.split(',').filter(|x| !x.is_empty()).map(|x| x.parse().unwrap()).collect())
+                .unwrap_or_default();
             let cfg = parse_cfg(&args[3..]);
             for inst in instances::all() {
                 if inst.name == name {
@@ -65,19 +118,51 @@ fn main() {
                 }
             }
         }
+        Some("replay") => {
+            // vh replay <file>: re-executes the recorded choice vector with a full trace.
+            let path = args.get(2).cloned().unwrap_or_default();
+            let txt = std::fs::read_to_string(&path).expect("cannot read replay file");
+            let j: serde_json::Value = serde_json::from_str(&txt).expect("bad replay file");
+            let build = j["build"].as_str().unwrap_or("small");
+            let mine = if cfg!(feature = "small") { "small" } else { "ship" };
+            if build != mine {
+                eprintln!("MACHINERY-ERROR this replay was recorded with the '{}' build, this binary is '{}'", build, mine);
+                std::process::exit(2);
+            }
+            let name = j["instance"].as_str().unwrap().to_string();
+            let cfg = parse_cfg_string(j["cfg"].as_str().unwrap_or(""));
+            let choices: Vec<u16> = j["choices"].as_array().unwrap().iter().map(|x| x.as_u64().unwrap() as u16).collect();
+            let all = instances::all();
+            let inst = all.iter().find(|i| i.name == name).expect("unknown instance");
+            let res = runner::replay_local(inst, &cfg, &choices);
+            for l in &res.trace {
+                println!("{}", l);
+            }
+            match &res.violation {
+                Some(v) => {
+                    println!("VIOLATION property={} replay={}", v.property, path);
+                    println!("  oracle={} {}", v.oracle, v.message);
+                    std::process::exit(1);
+                }
+                None => {
+                    println!("no violation on replay");
+                    std::process::exit(0);
+                }
+            }
+        }
         Some("run") => {
             let pat = args.get(2).cloned().unwrap_or_default();
             let cfg = parse_cfg(&args[3..]);
-            let deciding = args.iter().position(|a| a == "--deciding").map(|i| args[i + 1].clone());
+            let deciding = flag(&args, "--deciding");
             let mut bad = false;
             for inst in instances::all() {
                 if !inst.name.contains(&pat) {
                     continue;
                 }
                 let t = std::time::Instant::now();
-                let r = runner::run_local(&inst, &cfg, &[], None, deciding.as_deref());
+                let r = runner::run_local(&inst, &cfg, &[], None, deciding.as_deref(), &[]);
                 println!(
-                    "{:28} execs={:8} nodes={:8} steps={:10} maxsteps={:4} maxcp={:3} outcomes={:4} complete={} dev={:?} others={:?} callsteps={:?} nodes={} {:.2}s",
+                    "{:34} execs={:8} nodes={:8} steps={:10} maxsteps={:4} maxcp={:3} outcomes={:4} complete={} dev={:?} others={:?} callsteps={:?} nodes={} {:.2}s",
                     inst.name,
                     r.executions,
                     r.nodes,
@@ -95,7 +180,7 @@ fn main() {
                 if let Some(v) = r.deciding.as_ref().or(r.first_other.as_ref()) {
                     bad = true;
                     println!("  VIOLATION {} [{}] {}", v.property, v.oracle, v.message);
-                    println!("  choices={:?}", v.choices);
+                    println!("  choices={}", v.choices.iter().map(|c| c.to_string()).collect::<Vec<_>>().join(","));
                     if args.iter().any(|a| a == "--trace") {
                         let res = runner::replay_local(&inst, &cfg, &v.choices);
                         for l in &res.trace {
@@ -106,8 +191,66 @@ fn main() {
             }
             std::process::exit(if bad { 1 } else { 0 });
         }
+        Some("prop") => {
+            let t0 = std::time::Instant::now();
+            let p = args.get(2).cloned().unwrap_or_default();
+            let tier = match flag(&args, "--tier").as_deref() {
+                Some("thorough") => prop::Tier::Thorough,
+                _ => prop::Tier::Quick,
+            };
+            let seed: u64 = std::env::var("VERIF_SEED").ok().and_then(|s| s.parse().ok()).unwrap_or(0);
+            let me = std::env::current_exe().unwrap().to_string_lossy().to_string();
+            let o = prop::PropOpts {
+                prop: p.clone(),
+                tier,
+                jobs: flag(&args, "--jobs").and_then(|s| s.parse().ok()).unwrap_or(16),
+                small_bin: flag(&args, "--small-bin").unwrap_or(me),
+                ship_bin: flag(&args, "--ship-bin"),
+                known_file: flag(&args, "--known").unwrap_or_else(|| "/verif/known_findings.json".into()),
+                evidence_dir: flag(&args, "--evidence-dir").unwrap_or_else(|| "/verif/evidence".into()),
+                replay_dir: flag(&args, "--replay-dir").unwrap_or_else(|| "/verif/replays".into()),
+                seed,
+                only: flag(&args, "--only"),
+                budget_s: flag(&args, "--budget-s").and_then(|s| s.parse().ok()),
+                write_evidence: true,
+            };
+            let all = instances::all();
+            let out = prop::run_prop(&all, &o);
+            let eng = &out.evidence["engine"];
+            let execs = eng["executions"].as_u64().unwrap_or(0);
+            let ev = json!({
+                "property_id": p,
+                "tier": tier.name(),
+                "seed": seed,
+                "level": "model_checking",
+                "coverage": {
+                    "states": eng["choice_tree_nodes"].as_u64().unwrap_or(0).max(1),
+                    "transitions": eng["engine_steps"].as_u64().unwrap_or(0).max(1),
+                    "traces_validated_against_impl": execs,
+                    "evaluations": execs,
+                    "distinct_nontrivial": eng["distinct_outcomes"],
+                    "rule": "every execution of every listed harness within the listed deviation bounds is enumerated (depth-first over choice vectors, cut into subtrees by the positions of the first deviations); each execution runs the real crate under the controlled scheduler and memory model. distinct = distinct (harness, hash of the per-thread call results and observations); an execution is non-trivial when it completes with a recorded history",
+                    "samples": eng["samples"],
+                    "exhaustive": eng["all_bounded_spaces_completed"],
+                    "engine": eng,
+                },
+                "assumptions": ASSUMPTIONS,
+                "wall_s": t0.elapsed().as_secs_f64(),
+                "violations": out.violations,
+            });
+            let _ = std::fs::create_dir_all(&o.evidence_dir);
+            let path = format!("{}/{}.json", o.evidence_dir, p);
+            std::fs::write(&path, serde_json::to_string_pretty(&ev).unwrap()).expect("cannot write evidence");
+            if !out.machinery_errors.is_empty() {
+                for e in &out.machinery_errors {
+                    println!("MACHINERY-ERROR {}", e);
+                }
+                std::process::exit(if out.violations > 0 { 1 } else { 2 });
+            }
+            std::process::exit(if out.violations > 0 { 1 } else { 0 });
+        }
         _ => {
-            eprintln!("usage: vh selftest | list | run <pattern> [--p N --s N --f N --model m1|m2|sc] [--deciding Cxx] [--trace]");
+            eprintln!("usage: vh selftest | list | run <pattern> [cfg] | prop <Cxx> --tier quick|thorough | replay <file> | trace <instance> <choices> [cfg]");
             std::process::exit(2);
         }
     }
